@@ -928,6 +928,7 @@ impl Parser {
                     clauses.push(clause);
                 } else {
                     has_failed = true;
+                    clause_ended_with_brace = false;
                     self.consume_until_one_of(&[TokenEnum::Comma, TokenEnum::RightBrace]);
                     self.advance();
                 }
